@@ -25,6 +25,7 @@ func runC10(r *engine.Run) {
 	r.Rule("DOM-proofappend", "in getBlockProof the serialisation of the current node is appended to the proof before every descent and before every successful termination: the proof contains every node of the walked path")
 	r.Rule("AGREE-endian", "see C09: one byte order for all fixed-width fields (prover, verifier and hash agree on the weights they read)")
 	r.Rule("AGREE-persist", "every field a Serialize method stores into a PersistNode* struct is read by DeserializeNode and vice versa")
+	r.Rule("AGREE-decode", "DeserializeNode accumulates a branch's weight from the child weights it reads and stores every accepted child entry into a child slot; shortNode.Serialize fills the persisted value reference from the value's Hash() and Weight()")
 	r.NotDec = append(r.NotDec, "absence of other forgeries (a statement over all byte strings)", "that honest proofs verify for every content (value-level)")
 	f := r.Fn("ORDER-recompute", pkgWMPT, "", "verifyProof")
 	if f == nil {
@@ -39,6 +40,7 @@ func runC10(r *engine.Run) {
 	domProofAppend(r, "DOM-proofappend")
 	agreeEndian(r, "AGREE-endian")
 	agreePersist(r, "AGREE-persist")
+	agreeDecode(r, "AGREE-decode")
 }
 
 func orderRecompute(r *engine.Run, f *ssa.Function) {
@@ -155,12 +157,7 @@ func orderRecompute(r *engine.Run, f *ssa.Function) {
 func domRangeVerify(r *engine.Run, f *ssa.Function) {
 	const rule = "DOM-range"
 	rangeGuards(r, rule, f, func(c *ssa.Call) bool { return c.Call.StaticCallee() == f })
-	var blockParam ssa.Value
-	for _, p := range f.Params {
-		if p.Name() == "block" {
-			blockParam = p
-		}
-	}
+	blockParam := paramRole(f, "block")
 	// value and short arms
 	for _, ret := range engine.Returns(f) {
 		if len(ret.Results) != 3 || !nilConst(ret.Results[2]) {
@@ -188,7 +185,7 @@ func domRangeVerify(r *engine.Run, f *ssa.Function) {
 	// exhaustion -> ErrWeightNotInRange
 	found := false
 	for _, ret := range engine.Returns(f) {
-		if len(ret.Results) == 3 && globalErrName(ret.Results[2]) == "ErrWeightNotInRange" && strings.HasPrefix(ret.Block().Comment, "for.done") {
+		if len(ret.Results) == 3 && globalErrName(ret.Results[2]) == "ErrWeightNotInRange" && (strings.HasPrefix(ret.Block().Comment, "for.done") || strings.HasSuffix(ret.Block().Comment, ".done")) {
 			found = true
 		}
 	}
